@@ -31,6 +31,13 @@ SPECS += [
 for m in ("add_mut", "sub_mut", "mul_mut", "div_mut", "copy_from"):
     SPECS.append(G(f"{m}: rows(self)!=rows(other)->panic", DM + m + "$", ROWS(1), ROWS(2), NE, EQ, "panic"))
     SPECS.append(G(f"{m}: cols(self)!=cols(other)->panic", DM + m + "$", COLS(1), COLS(2), NE, EQ, "panic"))
+# cell accessors: an index outside the logical shape is refused by every accessor (the flat offset col * nrows + row of an
+# out-of-range row lands inside the buffer, in the next column: a silent write that depends on the storage order)
+for m in ("get", "set", "add_element_mut", "sub_element_mut", "mul_element_mut", "div_element_mut"):
+    SPECS.append(G(f"{m}: row>=rows(self)->panic", DM + m + "$", Arg(2), ROWS(1), "pz", "n", "panic"))
+    SPECS.append(G(f"{m}: col>=cols(self)->panic", DM + m + "$", Arg(3), COLS(1), "pz", "n", "panic"))
+for m, d, D in (("copy_row_as_vec", "cols", COLS), ("copy_col_as_vec", "rows", ROWS)):
+    SPECS.append(G(f"{m}: len(result)<{d}(self)->panic", DM + m + "$", LEN(3), D(1), "n", "pz", "panic"))
 EQFN = r"^<linalg::naive::dense_matrix::DenseMatrix<T> as std::cmp::PartialEq>::eq$"
 for fn, nm in ((DM + "approximate_eq$", "approximate_eq"), (EQFN, "eq")):
     SPECS.append(G(f"{nm}: rows mismatch->false", fn, ROWS(1), ROWS(2), NE, EQ, "false"))
